@@ -199,7 +199,8 @@ def bind_stage(traces, d, tag="i", chunk=250):
     Only traces of the stage family without harness-side panics take part."""
     from concurrent.futures import ThreadPoolExecutor
     idx = [i for i, t in enumerate(traces) if t["cfg"]["kind"] in STAGE_KINDS and not t.get("crash") and t["wins"]
-           and not any(e["e"] in ("sendpanic", "closepanic") for w in t["wins"] for e in w["done"])]
+           and not any(e["e"] in ("sendpanic", "closepanic") for w in t["wins"] for e in w["done"])
+           and not any(w["cmd"]["c"] == "burst" for w in t["wins"])]
     starts = list(range(0, len(idx), chunk))
 
     def one(c0):
